@@ -82,6 +82,12 @@ func reqForms() []reqForm {
 	return l
 }
 
+// respelledForms are the request forms repeated under alternative escapings
+// of the request target.
+var respelledForms = []reqForm{
+	{"PROPFIND", "prop", "1"}, {"PROPFIND", "allprop", "0"}, {"MKCOL", "empty", ""}, {"DELETE", "", ""}, {"GET", "", ""}, {"REPORT", "query", ""},
+}
+
 var entries = []string{"well-known", "root", "root-slash", "principal"}
 
 // ---- random names ---------------------------------------------------------
@@ -169,6 +175,11 @@ func randCase(r *rand.Rand) Case {
 	}
 	l.Deeper = randName(r)
 	l.PSlash, l.HSlash, l.CSlash = r.Intn(2) == 0, r.Intn(2) == 0, r.Intn(2) == 0
+	if r.Intn(60) == 0 {
+		cs.Kind = "multi"
+		cs.StepSeed = 1 + r.Int63n(1<<40)
+		return cs
+	}
 	if r.Intn(5) == 0 {
 		cs.Kind = "chain"
 		cs.Entry = entries[r.Intn(len(entries))]
@@ -188,13 +199,19 @@ func randCase(r *rand.Rand) Case {
 		cs.Level += r.Intn(3)
 	}
 	cs.Slash = r.Intn(2) == 0
+	if r.Intn(3) == 0 {
+		cs.Spelling = spellings[r.Intn(len(spellings))]
+	}
 	return cs
 }
 
 func execCase(c *fw.Ctx, cs *Case) {
-	if cs.Kind == "chain" {
+	switch cs.Kind {
+	case "chain":
 		execChain(c, cs)
-	} else {
+	case "multi":
+		execMulti(c, cs)
+	default:
 		execReq(c, cs)
 	}
 }
@@ -202,7 +219,7 @@ func execCase(c *fw.Ctx, cs *Case) {
 func run(c *fw.Ctx) {
 	idx := 0
 	forms := reqForms()
-	nStruct, nChain := 0, 0
+	nStruct, nChain, nSpell, nMulti := 0, 0, 0, 0
 	// Structural product, enumerated completely in both tiers.
 	for _, server := range []string{"caldav", "carddav"} {
 		for nsi := range nameSets {
@@ -235,7 +252,35 @@ func run(c *fw.Ctx) {
 									idx++
 									nStruct++
 								}
+								// The same decoded path under equivalent escapings of
+								// the request target, for the rows with teeth.
+								if (cl.level == 0 && plen == 0) || sti != (nsi+plen+1)%len(layStyles) {
+									continue // "/" has no other spelling; the backend's layout style does not matter here: one per (name set, prefix)
+								}
+								for _, f := range respelledForms {
+									for _, sp := range spellings {
+										if c.Mine(idx) {
+											cs := base
+											cs.Kind, cs.Method, cs.Form, cs.Depth = "req", f.method, f.form, f.depth
+											cs.Level, cs.Target, cs.Slash, cs.Spelling = cl.level, cl.target, slash, sp
+											execReq(c, &cs)
+										}
+										idx++
+										nSpell++
+									}
+								}
 							}
+						}
+						// One handler serving two users; one layout style per
+						// (name set, prefix) so that all styles are met.
+						if sti == (nsi+plen)%len(layStyles) {
+							if c.Mine(idx) {
+								cs := base
+								cs.Kind = "multi"
+								execMulti(c, &cs)
+							}
+							idx++
+							nMulti++
 						}
 					}
 				}
@@ -243,8 +288,10 @@ func run(c *fw.Ctx) {
 		}
 	}
 	c.Note("exhaustive_part", fmt.Sprintf("structural product enumerated completely: 2 servers x %d name sets (plain, hostile, all-segments-equal) x prefix of 0..3 segments x 2 spellings of Handler.Prefix x %d backend layout styles "+
-		"x {%d (level,target) cells x 2 trailing-slash spellings x %d request forms (16 methods/variants + PROPFIND 3 bodies x 4 Depth values) = %d requests; %d client discovery chains from 4 entry points}",
-		len(nameSets), len(layStyles), len(cells), len(forms), nStruct, nChain))
+		"x {%d (level,target) cells x 2 trailing-slash spellings x %d request forms (16 methods/variants + PROPFIND 3 bodies x 4 Depth values) = %d requests; %d client discovery chains from 4 entry points}; "+
+		"%d requests repeat the rows with teeth (%d request forms) under 3 equivalent escapings of the request target (every byte %%XX upper-case, every byte %%xx lower-case, first byte of each segment escaped + sub-delims raw); "+
+		"%d multi-user sessions (one handler, two users from the request context: chains and %d requests alternating A,B, then the same concurrently)",
+		len(nameSets), len(layStyles), len(cells), len(forms), nStruct, nChain, nSpell, len(respelledForms), nMulti, len(sessionSteps(&Case{}))))
 
 	// Random names and random cells on top.
 	n := c.Pick(40000, 600000)
@@ -253,7 +300,9 @@ func run(c *fw.Ctx) {
 			continue
 		}
 		cs := randCase(c.Rand("c12", i))
-		if !cs.valid() {
+		csB := cs
+		csB.Layout = layoutB(cs.Layout)
+		if !cs.valid() || (cs.Kind == "multi" && !csB.valid()) {
 			c.Observe("random_cases", "skipped: outside the domain (well-known collision)", 1)
 			continue
 		}
@@ -305,6 +354,28 @@ func post(m *fw.Merged) {
 		}
 	}
 	need("carddav", "DELETE", 0, 1, 2, 3, 5)
+	for _, s := range []string{"caldav", "carddav"} {
+		for _, u := range []string{"A", "B"} {
+			for l := 0; l <= 5; l++ {
+				if k := fmt.Sprintf("%s|user %s|PROPFIND|L%d", s, u, l); m.Obs["multi_user_requests(judged cells)"][k] == 0 {
+					missing = append(missing, "multi-user "+k)
+				}
+			}
+			if k := fmt.Sprintf("%s|user %s|principal|ok", s, u); m.Obs["multi_user_chain_steps"][k] == 0 {
+				missing = append(missing, "multi-user chain "+k)
+			}
+		}
+		for _, ph := range []string{"sequential phase", "concurrent phase"} {
+			if m.Obs["multi_user_sessions"][s+"|"+ph] == 0 {
+				missing = append(missing, "multi-user "+s+" "+ph)
+			}
+		}
+	}
+	for _, sp := range spellings {
+		if m.Obs["request_target_spelling(judged cells)"][sp] == 0 {
+			missing = append(missing, "request-target spelling "+sp)
+		}
+	}
 	if len(missing) > 0 {
 		m.Inconclusive = append(m.Inconclusive, fmt.Sprintf("C12: judged cells / chain links never observed: %v", missing))
 	}
@@ -316,15 +387,23 @@ func init() {
 		Run: run,
 		Replay: func(c *fw.Ctx, w json.RawMessage) {
 			var wit struct {
-				Case *Case `json:"case"`
+				Case    *Case `json:"case"`
+				Session *Case `json:"session"`
 			}
-			if json.Unmarshal(w, &wit) == nil && wit.Case != nil {
+			if json.Unmarshal(w, &wit) != nil {
+				return
+			}
+			if wit.Session != nil {
+				execCase(c, wit.Session)
+			} else if wit.Case != nil {
 				execCase(c, wit.Case)
 			}
 		},
 		Rule: "The real caldav.Handler / carddav.Handler run over a recording backend double whose layout (principal, home set, collections, objects) is placed below the mount prefix. " +
 			"Structural product (enumerated completely, both tiers): server x 3 fixed name sets x prefix of 0..3 segments x both spellings of Handler.Prefix x 3 layout styles x (level 0..5, own/foreign/missing target) x trailing-slash spelling x every request form; " +
 			"plus the client discovery chain (FindCurrentUserPrincipal, Find*HomeSet, Find*s, Query*, MultiGet*, Get*Object) over net/http's client and an in-process transport from 4 entry points (well-known URI, prefix root in both spellings, principal). " +
+			"The rows with teeth are repeated under three equivalent escapings of the request target (the decoded path is identical; RFC 3986 6.2.2). " +
+			"Multi-user family: ONE handler whose backend takes the user from the request context serves users A and B alternately, then concurrently (requests and discovery chains); every request is judged for its own user, and nothing of the other user may show. " +
 			"Random part: seeded random hostile segment names (spaces, %, ?, #, unicode, dots, controls, invalid UTF-8), random layouts and random cells (levels up to 7). " +
 			"Oracle: DESIGN.md appendix C (level -> backend operation, path argument byte-identical to the request path); cells the table leaves open are executed and tabulated but not judged. " +
 			"evaluations = requests + client calls judged or tabulated; distinct_nontrivial = distinct (server, method, level, request form, Depth, target relation, slash spellings, prefix length, layout style, name class) of judged cells and chain steps.",
@@ -336,6 +415,7 @@ func init() {
 			"CardDAV DELETE outside address-book/object level: any non-2xx status is accepted (the statement names 403 only for collection creation); 403 vs other is tabulated",
 			"levels below object level: nothing of the user's resources may be shown and nothing mutated; status and read-only backend calls are left open",
 			"the recording backend double answers lookups by exact path and accepts every mutation",
+			"multi-user family: a response may repeat the request path as an href even when that path belongs to the other user; any other href or content of the other user counts as exposure",
 			"the path a PUT reports back to the client (Location) is tabulated, not judged (not part of the statement's chain)",
 		},
 		MinEvals:    func(t string) int64 { return 100000 },
